@@ -4,6 +4,7 @@ import (
 	"bytes"
 	"encoding/hex"
 	"fmt"
+	"net"
 
 	"github.com/gopacket/gopacket"
 	"github.com/gopacket/gopacket/layers"
@@ -391,6 +392,55 @@ func c17CheckFlow(c *vlib.Ctx, what string, f gopacket.Flow, typ gopacket.Endpoi
 	}
 }
 
+// c17Helpers: "interchangeable as map keys" for the endpoints a user makes with the layers package's constructors from the
+// addresses and ports of a decoded layer: they must be the very endpoints the layer's flow carries (both forms of an IPv4
+// address, net.IP of 4 and of 16 bytes, name the same endpoint).
+func c17Helpers(c *vlib.Ctx, p gopacket.Packet, input []byte) {
+	same := func(what string, made, carried gopacket.Endpoint) {
+		c.Count("helper_endpoints_compared", 1)
+		m := map[gopacket.Endpoint]int{carried: 1}
+		if made != carried || m[made] != 1 {
+			c.Violation("E1-helper-endpoint-differs:"+what, fmt.Sprintf("the endpoint made by the %s constructor (%v, raw %x) is not equal to the one the decoded layer's flow carries (%v, raw %x)", what, made.EndpointType(), made.Raw(), carried.EndpointType(), carried.Raw()), hex.EncodeToString(input))
+		}
+	}
+	for _, l := range p.Layers() {
+		switch x := l.(type) {
+		case *layers.Ethernet:
+			same("NewMACEndpoint", layers.NewMACEndpoint(x.SrcMAC), x.LinkFlow().Src())
+			same("NewMACEndpoint", layers.NewMACEndpoint(x.DstMAC), x.LinkFlow().Dst())
+		case *layers.IPv4:
+			if len(x.SrcIP) == 4 && len(x.DstIP) == 4 {
+				same("NewIPEndpoint", layers.NewIPEndpoint(x.SrcIP), x.NetworkFlow().Src())
+				same("NewIPEndpoint", layers.NewIPEndpoint(x.DstIP), x.NetworkFlow().Dst())
+				same("NewIPEndpoint-16-byte-form", layers.NewIPEndpoint(x.SrcIP.To16()), x.NetworkFlow().Src())
+				same("NewIPEndpoint-16-byte-form", layers.NewIPEndpoint(net.IPv4(x.DstIP[0], x.DstIP[1], x.DstIP[2], x.DstIP[3])), x.NetworkFlow().Dst())
+			}
+		case *layers.IPv6:
+			if len(x.SrcIP) == 16 && x.SrcIP.To4() == nil {
+				same("NewIPEndpoint", layers.NewIPEndpoint(x.SrcIP), x.NetworkFlow().Src())
+			}
+			if len(x.DstIP) == 16 && x.DstIP.To4() == nil {
+				same("NewIPEndpoint", layers.NewIPEndpoint(x.DstIP), x.NetworkFlow().Dst())
+			}
+		case *layers.TCP:
+			same("NewTCPPortEndpoint", layers.NewTCPPortEndpoint(x.SrcPort), x.TransportFlow().Src())
+			same("NewTCPPortEndpoint", layers.NewTCPPortEndpoint(x.DstPort), x.TransportFlow().Dst())
+		case *layers.UDP:
+			same("NewUDPPortEndpoint", layers.NewUDPPortEndpoint(x.SrcPort), x.TransportFlow().Src())
+			same("NewUDPPortEndpoint", layers.NewUDPPortEndpoint(x.DstPort), x.TransportFlow().Dst())
+		case *layers.SCTP:
+			same("NewSCTPPortEndpoint", layers.NewSCTPPortEndpoint(x.SrcPort), x.TransportFlow().Src())
+			same("NewSCTPPortEndpoint", layers.NewSCTPPortEndpoint(x.DstPort), x.TransportFlow().Dst())
+		case *layers.RUDP:
+			same("NewRUDPPortEndpoint", layers.NewRUDPPortEndpoint(x.SrcPort), x.TransportFlow().Src())
+			same("NewRUDPPortEndpoint", layers.NewRUDPPortEndpoint(x.DstPort), x.TransportFlow().Dst())
+		case *layers.UDPLite:
+			same("NewUDPLitePortEndpoint", layers.NewUDPLitePortEndpoint(x.SrcPort), x.TransportFlow().Src())
+			same("NewUDPLitePortEndpoint", layers.NewUDPLitePortEndpoint(x.DstPort), x.TransportFlow().Dst())
+		}
+	}
+}
+
 func c17Layers(c *vlib.Ctx) {
 	n := c.Pick(20000, 300000)
 	parserEth := &layers.Ethernet{}
@@ -427,6 +477,7 @@ func c17Layers(c *vlib.Ctx) {
 				c17CheckFlow(c, "network-fields", x.NetworkFlow(), layers.EndpointIPv6, x.SrcIP, x.DstIP, fc.fwd)
 			}
 			c17CheckFlow(c, "network", nl.NetworkFlow(), fc.ntyp, fc.nsrc, fc.ndst, fc.fwd)
+			c17Helpers(c, p, fc.fwd)
 			pairs := [][2]gopacket.Flow{{ll.LinkFlow(), ql.LinkFlow()}, {nl.NetworkFlow(), qn.NetworkFlow()}}
 			// RUDP and UDPLite are not TransportLayer-registered in every build: look the layer up by type as well
 			var tf, qf gopacket.Flow
